@@ -866,7 +866,8 @@ func (u *Ufs) Wstat(req *SrvReq) {
 			case true:
 				mt = st.ModTime()
 			default:
-				// at = time.Time(0)//atime(st.Sys().(*syscall.Stat_t))
+				/* the zero time leaves the access time as it is */
+				at = time.Time{}
 			}
 		}
 		e := os.Chtimes(fid.path, at, mt)
